@@ -20,12 +20,14 @@ Definition wf_allb (k : kernel) : bool :=
 
 (* one public call on one process of a kernel:
    [status file of the process as printed by the kernel; answer; get form afterwards; kernel afterwards;
+    what _get_eligible_cpus() returns on the start state;
     the same three as the property demands them (or None); well-formedness of the start state] *)
 Definition run_case (k : kernel) (pid : Z) (r : req) : jv :=
   let '(o, k1) := run_req pid r k in
   let '(g, k2) := run_req pid (get_form r) k1 in
   JL [ JL (match kget pid k with Some p => [JL [JZ pid; JB (k_status p)]] | None => [] end);
        jv_outcome jv_resv o; jv_outcome jv_resv g; jv_kernel k2;
+       jv_outcome jv_zs (get_eligible_cpus pid k);
        match spec_req pid r k with
        | Some (so, sk) =>
          match spec_get pid r sk with
